@@ -25,6 +25,12 @@ func Compile(root *Module) error {
 type compiler struct {
 	root *Module
 	pool map[HasDefinitions]struct{}
+
+	// typedefs being compiled, to detect a typedef that refers back to itself
+	inProgressTypedefs map[*Typedef]struct{}
+
+	// imported modules already visited, modules may import each other
+	imported map[*Module]struct{}
 }
 
 func (c *compiler) module(y *Module) error {
@@ -55,6 +61,13 @@ func (c *compiler) module(y *Module) error {
 }
 
 func (c *compiler) compileImport(m *Module) error {
+	if c.imported == nil {
+		c.imported = make(map[*Module]struct{})
+	}
+	if _, visited := c.imported[m]; visited {
+		return nil
+	}
+	c.imported[m] = struct{}{}
 	for _, i := range m.identities {
 		if err := c.compile(i); err != nil {
 			return err
@@ -399,6 +412,14 @@ func (c *compiler) findTypedef(y *Type, parent Definition, qualifiedIdent string
 	}
 
 	// this will recurse if typedef references another typedef
+	if c.inProgressTypedefs == nil {
+		c.inProgressTypedefs = make(map[*Typedef]struct{})
+	}
+	if _, circular := c.inProgressTypedefs[found]; circular {
+		return nil, errors.New(SchemaPath(parent) + " - typedef " + y.ident + " is defined in terms of itself")
+	}
+	c.inProgressTypedefs[found] = struct{}{}
+	defer delete(c.inProgressTypedefs, found)
 	if err := c.compile(found); err != nil {
 		return nil, err
 	}
